@@ -463,7 +463,31 @@ def check_equiv(spec, ctx):
                 if not veq(ca_["f"], cb_["f"], 1e-12):
                     return Outcome(False, msg="step %d variable %s applied force: addforce %r vs linear %r" % (sa["it"], ca_["name"], cb_["f"], ca_["f"]),
                                    sig="equiv:addforce", case_text=cb)
-        return Outcome(True, nontrivial=any(f != 0 for f in spec["force"]), cls=cls, strata=[kind], case_text=cb)
+        # a 3-vector variable (distanceVec between atom 1 and the spare atom): the script force, given as a list, must reach the two
+        # atoms as -f and +f (the gradients of a distance vector are minus and plus the identity) on top of everything else
+        fv = [spec["force"][0], -0.5 * spec["force"][-1], 0.25]
+        vvcfg = "colvar {\n  name vv\n  distanceVec {\n    group1 { atomNumbers 1 }\n    group2 { atomNumbers %d }\n  }\n}" % nat
+        LC = list(LB[:-1]) + ["force_script cv colvar vv addforce %s" % pct(" ".join(repr(c) for c in fv)),
+                              "config <<END\nscriptedColvarForces on\n%s\n%s\nEND" % (vcfg, vvcfg)]
+        LD = list(LB[:-1]) + ["config <<END\nscriptedColvarForces on\n%s\n%s\nEND" % (vcfg, vvcfg)]
+        cc, rc_ = run(LC + tl)
+        cd, rd = run(LD + tl)
+        if rc_.crashed or rd.crashed or rc_.of("config")[0]["rc"] or rd.of("config")[0]["rc"]:
+            return Outcome(False, msg="crash/rejected (vector variable) %s %s" % (rc_.stderr[-300:], rc_.of("config")[:1]), sig="gen_invalid", case_text=cc)
+        for sc, sd in zip(rc_.of("step"), rd.of("step")):
+            if sc["errbits"] or sd["errbits"]:
+                return Outcome(False, msg="step %d: 'cv colvar vv addforce {%s}' inside the force callback: %s" % (sc["it"], " ".join(repr(c) for c in fv), sc["errs"] or sd["errs"]),
+                               sig="equiv:addforce_vector", case_text=cc)
+            fvv = [c for c in sc["cv"] if c["name"] == "vv"][0]["f"]
+            if not veq(fvv, fv, 1e-12):
+                return Outcome(False, msg="step %d: applied force of the vector variable %r after addforce %r" % (sc["it"], fvv, fv), sig="equiv:addforce_vector", case_text=cc)
+            for slot, aid in enumerate(sc["ids"]):
+                sign = -1.0 if aid == 0 else (1.0 if aid == nat - 1 else 0.0)
+                for d in range(3):
+                    if not close(sc["F"][slot][d] - sd["F"][slot][d], sign * fv[d], 1e-12):
+                        return Outcome(False, msg="step %d atom %d: the vector script force %r changes the atomic force by %r, expected %r" % (
+                            sc["it"], aid + 1, fv, sc["F"][slot][d] - sd["F"][slot][d], sign * fv[d]), sig="equiv:addforce_vector", case_text=cc)
+        return Outcome(True, nontrivial=any(f != 0 for f in spec["force"]), cls=cls, strata=[kind, "addforce_vector"], case_text=cb)
 
     if kind in ("load", "loadstr", "save"):
         prefix = os.path.join(wd, "c20s_%s" % tag)
@@ -599,7 +623,7 @@ def view(spec):
 
 
 REQUIRED_STRATA = {"all": ["agreement:queries", "agreement:gradients", "grid:grid", "grid:outside"] +
-                   ["equivalence:" + k for k in ("config", "configfile", "addforce", "load", "loadstr", "save", "biasstate", "reset")]}
+                   ["equivalence:" + k for k in ("config", "configfile", "addforce", "addforce_vector", "load", "loadstr", "save", "biasstate", "reset")]}
 
 PARTS = {
     "totality": {"runner": runner_totality, "replay": fuzzrun.replay_fuzz},
